@@ -238,6 +238,7 @@ pub fn run(run: &Run) {
         run.count(&format!("inputs_{}", f.name), cases.len() as u64);
         run.sample(json!({"format": f.name, "input": cases[cases.len() / 2].0, "expect": cases[cases.len() / 2].1.as_ref().map(|r| r.show())}));
         cases.par_iter().for_each(|(s, expect)| {
+            let _w = crate::watch::enter(s);
             for p in [Pipe::Enum, Pipe::LexFold] {
                 run.eval(1);
                 if let Err(msg) = crate::watch::case(s, || case(&f, p, s, expect.as_ref())) {
